@@ -344,11 +344,14 @@ class MapObj:
 class DictObj:
     """concrete string keys"""
 
-    def __init__(self, items=None):
+    def __init__(self, items=None, declared=None):
         self.items = dict(items or {})
+        # for a dict that is a symbolic INPUT of a contract (scope, environ, message): the keys its parameter type declares.
+        # Code that reads any other key of it cannot be analysed (the read is not silently "absent")
+        self.declared = declared
 
     def copy(self):
-        return DictObj(self.items)
+        return DictObj(self.items, self.declared)
 
 
 class Obj:
@@ -408,3 +411,9 @@ def type_of_value(v):
 
 def same_type(a, b):
     return repr(a) == repr(b)
+
+
+def undeclared_read(ev, o, k, node):
+    """a read of a key the parameter type of an input dict does not declare"""
+    if getattr(o, "declared", None) is not None and k not in o.items and not ev.pure:
+        ev.unsupported(node, "read of key %r of an input dict whose contract type declares only %s" % (k, sorted(o.declared)))
